@@ -1,1 +1,185 @@
-// placeholder
+// ======================================================================================
+// units/C08/paged_spec.rs — the mathematical content of a paged memory, DEFINED from its
+// `pages` map: the cell map, the representation invariant over cells, the byte view read off the
+// cells in the memory's endianness, the layered view (own bytes over the backing's), and the
+// per-address permission view.
+// ======================================================================================
+
+pub type PageMap<V> = Map<u64, RC<Page<V>>>;
+pub type Cells<V> = IMap<u64, MemoryCell<V>>;
+
+pub open spec fn page_base(x: u64) -> u64 { (x - x % 1024) as u64 }
+pub open spec fn page_off(x: u64) -> int { (x % 1024) as int }
+
+/// the masks the code uses select page base and offset
+pub proof fn lemma_page_bits(x: u64)
+    ensures
+        x & !(1024u64 - 1) == page_base(x),
+        x & !((1024usize as u64) - 1) == page_base(x),
+        (x & (1024u64 - 1)) as int == page_off(x),
+        page_base(x) % 1024 == 0,
+        page_base(x) <= x < page_base(x) + 1024,
+        page_base(x) + page_off(x) == x,
+{
+    assert(x & !(1024u64 - 1) == x - x % 1024) by (bit_vector);
+    assert(x & (1024u64 - 1) == x % 1024) by (bit_vector);
+    assert((x - x % 1024) as u64 % 1024 == 0) by (bit_vector);
+}
+
+/// addresses of the same page have the same base; offsets identify them
+pub proof fn lemma_page_split(x: u64, y: u64)
+    ensures (page_base(x) == page_base(y) && page_off(x) == page_off(y)) <==> x == y,
+{
+}
+
+/// a page base is its own base; every address of the page has it as base
+pub proof fn lemma_page_of_base(k: u64, x: u64)
+    requires k % 1024 == 0,
+    ensures page_base(x) == k <==> k <= x < k + 1024,
+{
+}
+
+// ---- structure of the page map ---------------------------------------------------------------------
+
+/// every page has PAGE_SIZE cells and is stored under a page-aligned key
+pub open spec fn pages_wf<V: Value>(pages: PageMap<V>) -> bool {
+    forall|k: u64| #[trigger] pages.contains_key(k) ==> k % 1024 == 0 && pages[k].cells@.len() == 1024
+}
+
+pub open spec fn cell_at<V: Value>(pages: PageMap<V>, x: u64) -> Option<MemoryCell<V>> {
+    if pages.contains_key(page_base(x)) && page_off(x) < pages[page_base(x)].cells@.len() {
+        pages[page_base(x)].cells@[page_off(x)]
+    } else {
+        None
+    }
+}
+
+/// the cell map: address -> cell; absent = never stored
+#[verifier::opaque]
+pub open spec fn cells_of<V: Value>(pages: PageMap<V>) -> Cells<V> {
+    IMap::new(|x: u64| cell_at(pages, x) is Some, |x: u64| cell_at(pages, x).unwrap())
+}
+
+/// the permissions recorded for the page stored under key k
+pub open spec fn page_perm<V: Value>(pages: PageMap<V>, k: u64) -> Option<MemoryPermissions> {
+    if pages.contains_key(k) { pages[k].permissions } else { None }
+}
+
+// ---- representation invariant over cells ------------------------------------------------------------
+
+pub open spec fn vlen<V: Value>(v: V) -> nat { v.vbits() / 8 }
+
+/// what `store` accepts and what cells hold: a well-formed value of non-zero byte-multiple width
+pub open spec fn val_ok<V: Value>(v: V) -> bool { v.vwf() && v.vbits() % 8 == 0 && v.vbits() >= 8 }
+
+pub open spec fn is_val<V: Value>(c: Cells<V>, a: u64) -> bool { c.contains_key(a) && c[a] is Value }
+
+pub open spec fn val_at<V: Value>(c: Cells<V>, a: u64) -> V { c[a]->Value_0 }
+
+pub open spec fn is_ref<V: Value>(c: Cells<V>, x: u64, a: u64) -> bool { c.contains_key(x) && c[x] == MemoryCell::<V>::Backref(a) }
+
+/// one past the last address the value stored at a occupies
+pub open spec fn end_of<V: Value>(c: Cells<V>, a: u64) -> int { a + vlen(val_at(c, a)) }
+
+/// stored values have byte-multiple non-zero width and do not reach the last address 2^64 - 1
+pub open spec fn inv_val<V: Value>(c: Cells<V>, a: u64) -> bool {
+    is_val(c, a) ==> val_ok(val_at(c, a)) && end_of(c, a) <= u64::MAX
+}
+
+/// a back-reference at x points to a value that starts before x and covers x
+pub open spec fn inv_ref<V: Value>(c: Cells<V>, x: u64) -> bool {
+    (c.contains_key(x) && c[x] is Backref) ==> ({
+        let a = c[x]->Backref_0;
+        a < x && is_val(c, a) && x < end_of(c, a)
+    })
+}
+
+/// every address strictly inside the value stored at a holds a back-reference to a
+pub open spec fn inv_cov<V: Value>(c: Cells<V>, a: u64, x: u64) -> bool {
+    (is_val(c, a) && a < x < end_of(c, a)) ==> is_ref(c, x, a)
+}
+
+pub open spec fn cells_base<V: Value>(c: Cells<V>) -> bool {
+    &&& forall|a: u64| #[trigger] inv_val(c, a)
+    &&& forall|x: u64| #[trigger] inv_ref(c, x)
+}
+
+pub open spec fn cells_cov_on<V: Value>(c: Cells<V>, lo: int, hi: int) -> bool {
+    forall|a: u64, x: u64| lo <= x < hi ==> #[trigger] inv_cov(c, a, x)
+}
+
+pub open spec fn cells_wf<V: Value>(c: Cells<V>) -> bool {
+    &&& cells_base(c)
+    &&& forall|a: u64, x: u64| #[trigger] inv_cov(c, a, x)
+}
+
+// ---- byte views ---------------------------------------------------------------------------------------
+
+/// byte number i, in ADDRESS order, of value v stored in endianness e
+pub open spec fn vbyte<V: Value>(e: Endian, v: V, i: int) -> u8 {
+    match e {
+        Endian::Little => v.le_bytes()[i],
+        Endian::Big => v.le_bytes()[v.le_bytes().len() - 1 - i],
+    }
+}
+
+/// the byte the memory itself holds at x (None = never stored)
+pub open spec fn own_at<V: Value>(e: Endian, c: Cells<V>, x: u64) -> Option<u8> {
+    if !c.contains_key(x) {
+        None
+    } else {
+        match c[x] {
+            MemoryCell::Value(v) => Some(vbyte(e, v, 0)),
+            MemoryCell::Backref(a) => Some(vbyte(e, val_at(c, a), x - a)),
+        }
+    }
+}
+
+/// the backing's byte at x
+pub open spec fn bk_at(bk: Option<SecMap>, x: int) -> Option<u8> {
+    match bk {
+        Some(s) => (match vw(s, x) { Some(bp) => Some(bp.0), None => None }),
+        None => None,
+    }
+}
+
+/// the backing's permissions at x
+pub open spec fn bk_perm(bk: Option<SecMap>, x: int) -> Option<MemoryPermissions> {
+    match bk {
+        Some(s) => (match vw(s, x) { Some(bp) => Some(bp.1), None => None }),
+        None => None,
+    }
+}
+
+/// the layered view: own bytes over the backing's bytes; addresses are mathematical integers
+pub open spec fn full_at<V: Value>(e: Endian, c: Cells<V>, bk: Option<SecMap>, x: int) -> Option<u8> {
+    if 0 <= x <= u64::MAX {
+        match own_at(e, c, x as u64) { Some(b) => Some(b), None => bk_at(bk, x) }
+    } else {
+        None
+    }
+}
+
+/// every byte of [address, address + n) is present
+pub open spec fn all_present<V: Value>(e: Endian, c: Cells<V>, bk: Option<SecMap>, address: u64, n: nat) -> bool {
+    forall|i: int| 0 <= i < n ==> (#[trigger] full_at(e, c, bk, address + i)) is Some
+}
+
+/// the bytes of v, in address order, are the content of [address, address + |v|)
+pub open spec fn reads<V: Value>(e: Endian, c: Cells<V>, bk: Option<SecMap>, address: u64, v: V) -> bool {
+    forall|i: int| 0 <= i < vlen(v) ==> #[trigger] full_at(e, c, bk, address + i) == Some(vbyte(e, v, i))
+}
+
+/// lv is the window [off, off + |lv|) of v (address order)
+pub open spec fn window<V: Value>(e: Endian, v: V, lv: V, off: int) -> bool {
+    &&& 0 <= off && off + vlen(lv) <= vlen(v)
+    &&& forall|i: int| 0 <= i < vlen(lv) ==> #[trigger] vbyte(e, lv, i) == vbyte(e, v, off + i)
+}
+
+/// the cells after writing value v at address a without looking at what was there
+pub open spec fn write_cells<V: Value>(c: Cells<V>, a: u64, v: V, k: nat) -> Cells<V> {
+    IMap::new(
+        |x: u64| (a <= x < a + k) || c.contains_key(x),
+        |x: u64| if x == a { MemoryCell::Value(v) } else if a < x < a + k { MemoryCell::Backref(a) } else { c[x] },
+    )
+}
